@@ -12,7 +12,7 @@ if os.path.exists(p):
         parts = line.rstrip('\n').split('\t')
         if len(parts) >= 4:
             results[parts[0]] = {'check': f'bin/check {parts[1]} {parts[2]}', 'verdict': parts[3]}
-for d in sorted(os.listdir(SEEDED)):
+for d in sorted(x for x in os.listdir(SEEDED) if x != 'harmless'):
     full = os.path.join(SEEDED, d)
     if not os.path.isdir(full):
         continue
